@@ -59,29 +59,32 @@ type Retryer struct {
 func getRetryerOfResource(resource string) *Retryer {
 	retryerMutex.Lock()
 	defer retryerMutex.Unlock()
-	if _, ok := retryers[resource]; !ok {
-		retryer := &Retryer{
+	rule := getOutlierRuleOfResource(resource)
+	if rule == nil {
+		// The rule was removed after the task had been queued. A retryer without a rule has no
+		// check function (calling it panics in the timer goroutine) and must not be cached.
+		logging.Error(errors.New("nil outlier rule"), "Nil outlier rule in getRetryerOfResource()")
+		return nil
+	}
+	retryer, ok := retryers[resource]
+	if !ok {
+		retryer = &Retryer{
 			resource: resource,
 			counts:   make(map[string]uint32),
 		}
-		rule := getOutlierRuleOfResource(resource)
-		if rule == nil {
-			// The rule was removed after the task had been queued. A retryer without a rule has no
-			// check function (calling it panics in the timer goroutine) and must not be cached.
-			logging.Error(errors.New("nil outlier rule"), "Nil outlier rule in getRetryerOfResource()")
-			return nil
-		} else {
-			retryer.maxAttempts = rule.MaxRecoveryAttempts
-			retryer.interval = time.Duration(rule.RecoveryIntervalMs) * time.Millisecond
-			if rule.RecoveryCheckFunc != nil {
-				retryer.checkFunc = rule.RecoveryCheckFunc
-			} else {
-				retryer.checkFunc = isPortOpen
-			}
-		}
 		retryers[resource] = retryer
 	}
-	return retryers[resource]
+	// The parameters follow the rule in force (the retryer is cached for the life of the process).
+	retryer.mtx.Lock()
+	retryer.maxAttempts = rule.MaxRecoveryAttempts
+	retryer.interval = time.Duration(rule.RecoveryIntervalMs) * time.Millisecond
+	if rule.RecoveryCheckFunc != nil {
+		retryer.checkFunc = rule.RecoveryCheckFunc
+	} else {
+		retryer.checkFunc = isPortOpen
+	}
+	retryer.mtx.Unlock()
+	return retryer
 }
 
 func isPortOpen(address string) bool {
@@ -109,8 +112,11 @@ func (r *Retryer) scheduleNodes(nodes []string) {
 }
 
 func (r *Retryer) connectNode(node string) {
+	r.mtx.Lock()
+	checkFunc := r.checkFunc
+	r.mtx.Unlock()
 	start := time.Now()
-	if r.checkFunc(node) {
+	if checkFunc(node) {
 		end := time.Now()
 		r.onConnected(node, uint64(end.Sub(start).Milliseconds()))
 	} else {
@@ -139,9 +145,10 @@ func (r *Retryer) onDisconnected(node string) {
 	if count > r.maxAttempts {
 		count = r.maxAttempts
 	}
+	interval := r.interval
 	r.mtx.Unlock()
 	// Fix bugs: When multiple active checks still do not recover, it is necessary to delete node from r.counts.
-	time.AfterFunc(r.interval*time.Duration(count), func() {
+	time.AfterFunc(interval*time.Duration(count), func() {
 		r.connectNode(node)
 	})
 }
